@@ -1,6 +1,7 @@
 package astits
 
 import (
+	"bytes"
 	"sort"
 )
 
@@ -23,6 +24,12 @@ func newPacketAccumulator(pid uint16, programMap *programMap) *packetAccumulator
 func (b *packetAccumulator) add(p *Packet) (ps []*Packet) {
 	mps := b.q
 
+	// Throw away packet if it's the same as the previous one
+	// This must be checked first since a duplicate packet is not a discontinuity
+	if isSameAsPrevious(mps, p) {
+		return
+	}
+
 	// Empty buffer if we detect a discontinuity
 	if hasDiscontinuity(mps, p) {
 		// Reset current slice or make new
@@ -31,11 +38,6 @@ func (b *packetAccumulator) add(p *Packet) (ps []*Packet) {
 		} else {
 			mps = make([]*Packet, 0, 10)
 		}
-	}
-
-	// Throw away packet if it's the same as the previous one
-	if isSameAsPrevious(mps, p) {
-		return
 	}
 
 	// Flush buffer if new payload starts here
@@ -126,5 +128,7 @@ func hasDiscontinuity(ps []*Packet, p *Packet) bool {
 // isSameAsPrevious checks whether a packet is the same as the last packet of a set of packets
 func isSameAsPrevious(ps []*Packet, p *Packet) bool {
 	l := len(ps)
-	return l > 0 && p.Header.HasPayload && p.Header.ContinuityCounter == ps[l-1].Header.ContinuityCounter
+	return l > 0 && p.Header.HasPayload && p.Header.ContinuityCounter == ps[l-1].Header.ContinuityCounter &&
+		!(p.Header.HasAdaptationField && p.AdaptationField.DiscontinuityIndicator) &&
+		bytes.Equal(p.Payload, ps[l-1].Payload)
 }
